@@ -118,7 +118,19 @@ def run_case(case):
     nd = len(dims)
     r = case["r"]
     a = core.build(spec, attrs=ATTRS)
+    for i, ax in enumerate(a.axes):        # member axes carry metadata of their own (and a tolerance, on numeric axes)
+        ax.attrs["long_name"] = "axis %d" % i
+        ax.attrs["lst"] = [i]
+        if core.label_kind(labels[i]) in "if" and i % 2 == 0:
+            ax.tol = 1e-9
     snap = core.snapshot(a)
+
+    def members_restored(back, what):
+        for i, d in enumerate(dims):
+            ax = back.axes[d]
+            check(core.attrs_equal(ax.attrs, a.axes[i].attrs) and getattr(ax, "tol", None) == a.axes[i].tol, "member-axis-not-restored-exactly",
+                  {"what": what, "dim": d, "attrs": core.jsonable(dict(ax.attrs)), "tol": getattr(ax, "tol", None), "expected_attrs": core.jsonable(dict(a.axes[i].attrs)),
+                   "expected_tol": a.axes[i].tol}, {"op": "unflatten"})
     src = core.model_of_spec(spec)
     src_vals = core.spec_values(spec)
     sub = []
@@ -169,6 +181,7 @@ def run_case(case):
                     check(sorted(back.dims) == sorted(dims), "unflatten-dims", {"what": what, "got": list(back.dims)}, {"op": "unflatten"})
                     back2 = lib(lambda: back.transpose(*dims), what=what + ".transpose", sig={"op": "unflatten"})
                     check_grouped(back2, src, dims, labels, [[d] for d in dims], what, {"op": "unflatten"})
+                    members_restored(back, what)
                     cl.add("unflatten")
                     sub.append((core.digest([spec, "flatten", subset, insert]), nontrivial))
                 if n < nd:
@@ -196,6 +209,10 @@ def run_case(case):
                     res = lib(lambda: a.flatten(tuple(comb), reverse=True, insert=0), what=what, sig={"op": "flatten"})
                     check_grouped(res, src, dims, labels, [rest] + [[d] for d in comb], what, {"op": "flatten"})
                     cl.add("flatten:reverse")
+                    for pname, pos in (("positions", tuple(dims.index(d) for d in comb)), ("negative positions", tuple(dims.index(d) - nd for d in comb))):
+                        what = "flatten(%s %s, reverse=True, insert=0) dims=%s" % (pname, list(pos), dims)
+                        res = lib(lambda: a.flatten(pos, reverse=True, insert=0), what=what, sig={"op": "flatten"})
+                        check_grouped(res, src, dims, labels, [rest] + [[d] for d in comb], what, {"op": "flatten"})
                 sub.append((core.digest([spec, "flatten-set", comb]), n >= 2))
     guard("flatten", t_flatten)
 
